@@ -119,6 +119,10 @@ class GraftGen(QGen):
                     "slice": f"({v}[0:2].Count() + {MARK})", "slice-step": f"({v}[::2].Count() + {MARK})"}[k]
         if k == "getAttribute":
             objs = [o for o in self.obj_sources(scope, 0) if o[1] == "xAOD::Jet"]
+            coll = self._collection_text(scope) if self.chance(1, 2) else None
+            if coll is not None:
+                # the receiver need not be a lambda variable
+                return f"({coll}{self.pick(['[0]', '.First()'])}.getAttribute('emf') + {MARK})"
             if not objs:
                 return None
             return f"({self.pick(objs)[0]}.getAttribute('emf') + {MARK})"
